@@ -100,6 +100,8 @@ def coq_w(w):
         return '(WConst %s %s %s)' % (w[1], C.q(w[2]), coq_expo(w[3]))
     if k == 'array':
         return '(WArray %s %s %s)' % (w[1], zl(w[2]), coq_expo(w[3]))
+    if k == 'matrix':
+        return '(WMatrix %s %s)' % (zl(w[2]), coq_expo(w[3]))
     return '(%s %s %s)' % ({'inner': 'WInner', 'norm': 'WNorm', 'dist': 'WDist'}[k], w[1], zl(w[2]))
 
 
@@ -178,6 +180,9 @@ def build_w(w, ctx, shape=None):
     if k == 'array':
         cls = NT.NumpyTensorSpaceArrayWeighting if kind == 'KNpy' else PS.ProductSpaceArrayWeighting
         return cls(ctx.array(w[2], shape), exponent=w[3])
+    if k == 'matrix':
+        from odl.space.weighting import MatrixWeighting
+        return MatrixWeighting(ctx.array(w[2], (2, 2)), impl='numpy', exponent=w[3])
     name = {'inner': 'CustomInner', 'norm': 'CustomNorm', 'dist': 'CustomDist'}[k]
     cls = getattr(NT, 'NumpyTensorSpace' + name) if kind == 'KNpy' else getattr(PS, 'ProductSpace' + name)
     return cls(ctx.func(w[2]))
@@ -206,7 +211,8 @@ def build_tsp(t, ctx, how=0):
             return odl.NumpyTensorSpace(shp, npdt, weighting=w[2], exponent=w[3])
         if w[0] == 'array':
             return odl.NumpyTensorSpace(shp, npdt, weighting=ctx.array(w[2], shp), exponent=w[3])
-        return odl.NumpyTensorSpace(shp, npdt, **{w[0]: ctx.func(w[2])})
+        if w[0] in ('inner', 'norm', 'dist'):
+            return odl.NumpyTensorSpace(shp, npdt, **{w[0]: ctx.func(w[2])})
     return odl.NumpyTensorSpace(shp, npdt, weighting=build_w(w, ctx, shp))
 
 
@@ -300,6 +306,8 @@ def describe_w(w, ctx):
         return ('const', kind, float(w.const), float(w.exponent))
     if isinstance(w, W.ArrayWeighting):
         return ('array', kind, ctx.aid_of(w.array), float(w.exponent))
+    if isinstance(w, W.MatrixWeighting):
+        return ('matrix', 'KNpy', ctx.aid_of(w.matrix), float(w.exponent))
     if isinstance(w, W.CustomInner):
         return ('inner', kind, ctx.fid_of(w.inner))
     if isinstance(w, W.CustomNorm):
@@ -359,6 +367,9 @@ def gen_w(rng, kind=None, allow_array=True, narr=4):
         return ('const', kind, rng.choice([1.0, 1.0, 2.0, 0.5, 0.25, 3.0]), gen_expo(rng))
     if r < 0.7 and allow_array:
         return ('array', kind, rng.randrange(narr), gen_expo(rng))
+    if r < 0.76:
+        # a dense MatrixWeighting; matrix objects 9000..9003 are 2x2 (exponents that need no eigen-decomposition)
+        return ('matrix', 'KNpy', 9000 + rng.randrange(4), rng.choice([2.0, 1.0, INF]))
     return (rng.choice(['inner', 'norm', 'dist']), kind, rng.randrange(3))
 
 
@@ -522,6 +533,8 @@ def mutate_w(rng, w):
     if r < 0.3:
         kind = 'KPs' if kind == 'KNpy' else 'KNpy'    # same data, other class family
         return (w[0], kind) + tuple(w[2:])
+    if w[0] == 'matrix':
+        return ('matrix', 'KNpy', 9000 + rng.randrange(4), w[3]) if r < 0.65 else ('matrix', 'KNpy', w[2], rng.choice([2.0, 1.0, INF]))
     if w[0] in ('const', 'array'):
         if r < 0.55:
             return (w[0], kind, w[2], rng.choice(EXPOS))
